@@ -80,6 +80,10 @@ func parseConf(t reflect.Type, data interface{}) (name string, fillConf func(con
 		return
 	}
 	name = names[0]
+	if name == "" {
+		err = errors.Errorf("plugin %s is empty", PluginNameKey)
+		return
+	}
 	fillConf = func(conf interface{}) error {
 		if tag.Debug {
 			zap.L().Debug("Decoding plugin",
